@@ -161,8 +161,9 @@ Fixpoint col (spec : N) (cols : list (N * bytes)) : bytes :=
   | (s, b) :: t => if s =? spec then b else col spec t
   end.
 
-Definition nth_res (l : list N) (i : N) : res N :=
-  match nth_error l (N.to_nat i) with Some v => Ok v | None => Panic end.   (* max_ops[i] *)
+Definition nth_res (l : list N) (i : N) : res N :=                            (* max_ops[i] *)
+  if N.of_nat (length l) <=? i then Panic                                   (* (no unary numeral for a huge index) *)
+  else match nth_error l (N.to_nat i) with Some v => Ok v | None => Panic end.
 
 (* the inner loop [for e in 0..d]: dependency indexes and the largest max_op among them *)
 Fixpoint take_deps (d : nat) (items : list (res N)) (max_ops : list N) (last : N)
